@@ -240,7 +240,8 @@ def r16_4(ctx):
     for p in sel:
         em, _ = _strip_key([e for e in emissions(p) if e[0] != "return"])
         if em != want_one:
-            if any(e[0] == "loop" and e[2] in ("self.children", "children") for e in em):
+            lps_ = [e for e in em if e[0] == "loop" and e[2] in ("self.children", "children")]
+            if lps_ and any(ev[0] == "yield" and ev[1] == "','" for body_ in lps_[0][3] for ev in body_):
                 raise AnalysisError("Node.iter_tokens: the one-element tuple is emitted by the general loop over the children (a per-child test inside the loop); this rule compares straight-line emissions and does not unroll the loop")
             ok, bad = False, p
     ctx.check(ok, it.fq, show(bad) if bad else "tuple of one", it.where, f"inline form of a 1-tuple is open, element, ',', close on all {len(sel)} paths",
@@ -439,12 +440,19 @@ def r16_10(ctx):
     for q in fam:
         for x in walk_local(q.node):
             if isinstance(x, ast.Call) and isinstance(x.func, ast.Attribute) and x.func.attr == "items" and not x.args:
+                from ..astutil import inline as _inl1610, single_defs as _sdf1610
+                sdq = _sdf1610(q.node)
                 cur = m.parent_of.get(x)
-                while cur is not None and not isinstance(cur, (ast.If, ast.IfExp)):
+                while cur is not None and cur is not q.node:
+                    if isinstance(cur, (ast.If, ast.IfExp)):
+                        arms = cur.body if isinstance(cur, ast.If) else [cur.body]
+                        t_ = _inl1610(cur.test, sdq)
+                        is_type_test = (isinstance(t_, ast.Call) and norm(t_.func) == "isinstance") or (isinstance(t_, ast.Compare) and len(t_.ops) == 1 and isinstance(t_.ops[0], ast.In) and "type" in norm(t_.left))
+                        if is_type_test and any(x is c for b in arms for c in ast.walk(b)):
+                            if (q, cur) not in tests:
+                                tests.append((q, cur))
+                            break
                     cur = m.parent_of.get(cur)
-                arms = (cur.body if isinstance(cur, ast.If) else [cur.body]) if cur is not None else []
-                if cur is not None and (q, cur) not in tests and any(x is c for b in arms for c in ast.walk(b)):
-                    tests.append((q, cur))
     if len(tests) != 1:
         raise AnalysisError(f"pretty.traverse: expected one `if <mapping test>:` selecting the items() form, found {len(tests)}")
     q, it = tests[0]
